@@ -852,7 +852,15 @@ fn mutate_json(doc: &mut Value, rng: &mut Rng, maxix: usize) -> String {
         let live: Vec<usize> = (0..ne).filter(|&i| !doc["edges"][i].is_null()).collect();
         if live.is_empty() { None } else { Some(live[rng.below(live.len())]) }
     };
-    match rng.below(16) {
+    match rng.below(17) {
+        16 if maxix <= 300 => {
+            // few present nodes, but so many declared holes that the node bound exceeds what the index type admits
+            if let Some(a) = doc["node_holes"].as_array_mut() {
+                let mut next = bound;
+                while nn + a.len() <= maxix { a.push(json!(next)); next += 1; }
+            }
+            "node_holes: trailing holes push the bound past the index limit".into()
+        }
         0 => { let f = *rng.pick(&["nodes", "node_holes", "edge_property", "edges"]); doc.as_object_mut().unwrap().remove(f); format!("drop field {}", f) }
         1 => { if let Some(i) = pick_edge(rng, doc) { let k = rng.below(2); doc["edges"][i][k] = json!(bound + rng.below(3)); format!("edge {} endpoint out of range", i) } else { "nop".into() } }
         2 => { if let Some(i) = pick_edge(rng, doc) { let k = rng.below(2); doc["edges"][i][k] = json!(maxix); format!("edge {} endpoint = max index", i) } else { "nop".into() } }
